@@ -6,8 +6,9 @@
     compared with the code bit for bit on every run (checkers 1801-1806).
 
     NOT proved here (float-tolerance forms, evaluated on the implementation's outputs at every run
-    by checkers 1802-1804 instead): the triangle inequality, squared-Euclidean = Euclidean^2,
-    cosine = 1 - cos(angle), scale invariance, "in-place preprocessing yields a unit vector". *)
+    by checkers 1802-1804 instead): the triangle inequality, cosine = 1 - cos(angle), scale invariance,
+    "in-place preprocessing yields a unit vector".  "squared-Euclidean is its square" IS proved over the
+    reals (C18_euclidean_squared_is_squared_euclidean, through Flocq). *)
 From Coq Require Import ZArith List Bool.
 From Coq Require Import Floats.SpecFloat.
 From Comet Require Import Base.FBits Model.Distance.
@@ -79,7 +80,27 @@ Theorem C18_comparisons_are_ieee : forall a b, wf32 a -> wf32 b ->
 Proof. intros a b Ha Hb. split; [apply ltb32|split; [apply eqb32|apply leb32]]; assumption. Qed.
 Print Assumptions C18_comparisons_are_ieee.
 
-Example C18_example : dist L2 [F32.of_Z 3; F32.of_Z 0] [F32.of_Z 0; F32.of_Z 4] = F32.of_Z 5.
+(** "squared-Euclidean is its square", over the reals, for EVERY pair of vectors whose squared
+    distance is finite: the Euclidean distance is the correctly rounded root of the squared one, so its
+    square is off by one rounding only, |l2^2 - l2sq| <= (2^-23 + 2^-48) l2sq (through Flocq: the
+    standard library's real-number axioms appear under Print Assumptions) *)
+From Coq Require Import Reals.
+From Flocq Require Import Core.Core IEEE754.BinarySingleNaN.
+From Comet Require Import Proofs.Int8P Proofs.SqrtP.
+Theorem C18_euclidean_squared_is_squared_euclidean : forall a b,
+  wfv a -> wfv b -> is_finite_SF (F32.of_bits (Distance.dist L2Sq a b)) = true ->
+  (Rabs (R32 (Distance.dist L2 a b) * R32 (Distance.dist L2 a b) - R32 (Distance.dist L2Sq a b))
+   <= (bpow radix2 (-23) + bpow radix2 (-48)) * R32 (Distance.dist L2Sq a b))%R.
+Proof. exact l2_squared_is_l2sq. Qed.
+Print Assumptions C18_euclidean_squared_is_squared_euclidean.
+
+Example C18_euclidean_squared_hyps :
+  wfv [F32.of_Z 3; F32.of_Z 0] /\ wfv [F32.of_Z 0; F32.of_Z 4] /\
+  is_finite_SF (F32.of_bits (Distance.dist L2Sq [F32.of_Z 3; F32.of_Z 0] [F32.of_Z 0; F32.of_Z 4])) = true /\
+  Distance.dist L2Sq [F32.of_Z 3; F32.of_Z 0] [F32.of_Z 0; F32.of_Z 4] = F32.of_Z 25.
+Proof. exact l2_squared_example. Qed.
+
+Example C18_example : Distance.dist L2 [F32.of_Z 3; F32.of_Z 0] [F32.of_Z 0; F32.of_Z 4] = F32.of_Z 5.
 Proof. vm_compute. reflexivity. Qed.
 (** the hypotheses are satisfiable by non-trivial vectors *)
 Example C18_hyps : finv [F32.of_Z 3; F32.of_Z 0] /\ wfv [F32.nan; F32.pinf].
